@@ -37,7 +37,7 @@ var registrationAPI = map[string]string{
 
 func ruleNoPkgState(c *eng.Ctx) {
 	const R = "R3.1-NO-PKG-STATE"
-	c.Rule(R, "no function other than package initialisers writes memory rooted at a package-level variable (directly, through a callee that writes through a parameter, or through a value a callee returns from a global); no go statement in non-test code", 1500, 3)
+	c.Rule(R, "no function other than package initialisers writes memory rooted at a package-level variable (directly, through a callee that writes through a parameter, or through a value a callee returns from a global) or hands the address of package-level storage to code outside the module; no go statement in non-test code", 1000, 4)
 	p := c.P
 	funcs := p.ModuleFuncs()
 
